@@ -61,7 +61,7 @@ def run(ctx):
         ctx.oblige(f'extraction (30,4) repeated in a fresh process with GOMAXPROCS={procs} is identical', ok)
         if not ok and not nondet:
             nondet = (procs, first_diff(fresh, again))
-    sweep = [(1, 1), (2, 2), (3, 2), (10, 4)] + ([(4, 1), (5, 8), (20, 4), (31, 2), (30, 8)] if ctx.thorough else [])
+    sweep = [(1, 1), (2, 2), (3, 2), (10, 4), (31, 1)] + ([(4, 1), (5, 8), (20, 4), (31, 2), (30, 8)] if ctx.thorough else [])
     sweep_bad = None
     for d, b in sweep:
         x, y = extract(d, b), extract(d, b, 3)
